@@ -593,4 +593,75 @@ Proof.
     rewrite (tout_uniform d tau p Hreg Ht _ _ (sXX V) (inv0 (1 - y)) q i j Hi Hj He Ii (fun k => HXYi i k Hi) Eq).
     unfold psYY. rewrite Ht, !Hr, Ep, Ep', Eq. split; ring.
 Qed.
+
+(* Phi (V) = (sum X_i, sum Y_i, [SI], [SS]); on the symmetric subspace of a d-regular graph the pair-based field is
+   tangent to the subspace and Phi o rhs_big = rhs_small o Phi with rhs_small the homogeneous pairwise model, n = d *)
+Lemma pbSIR_lump d tau g x y p q V t :
+  pb_regularb d = true -> (forall u v, tr u v == tau) -> (forall u, rc u == g) -> pbSIR_uniform V x y p q ->
+  ~ x == 0 -> ~ Qnat N_ == 0 -> ~ Qnat d == 0 ->
+  let D := dSIR_pair_based G nodelist idx tr rc V t in
+  let Phi := fun W => [sumn N_ (rX W); sumn N_ (rY W); pb_pairs (rXY W); pb_pairs (rXX W)] in
+  pbSIR_uniform D (- (tau * Qnat d * p)) (tau * Qnat d * p - g * y)
+                  (- (tau + g) * p + (Qnat d - 1) * tau * (q - p) * p * inv0 x) (- (2 * (Qnat d - 1) * tau * p * q * inv0 x)) /\
+  veq (Phi D) (dSIR_homogeneous_pairwise (Phi V) t (Qnat d) tau g).
+Proof.
+  intros Hreg Ht Hr HU Hx HN Hd D Phi.
+  assert (F := pbSIR_uniform_field d tau g x y p q V Hreg Ht Hr HU).
+  assert (HD : pbSIR_uniform D (- (tau * Qnat d * p)) (tau * Qnat d * p - g * y)
+                  (- (tau + g) * p + (Qnat d - 1) * tau * (q - p) * p * inv0 x) (- (2 * (Qnat d - 1) * tau * p * q * inv0 x))).
+  { split.
+    - intros k Hk. destruct (pbSIR_layout V t k k Hk Hk) as [E1 [E2 _]]. fold D in E1, E2. rewrite E1, E2.
+      destruct (F k Hk) as [F1 [F2 _]]. split; assumption.
+    - intros i j Hi Hj He. destruct (pbSIR_layout V t i j Hi Hj) as [_ [_ [E3 E4]]]. fold D in E3, E4. rewrite E3, E4.
+      destruct (F i Hi) as [_ [_ F3]]. apply F3; assumption. }
+  split; [exact HD|].
+  destruct HU as [U1 U2]. destruct HD as [D1 D2].
+  assert (S1 : sumn N_ (rX V) == Qnat N_ * x) by (apply sumn_const; intros k Hk; apply (U1 k Hk)).
+  assert (S2 : sumn N_ (rY V) == Qnat N_ * y) by (apply sumn_const; intros k Hk; apply (U1 k Hk)).
+  assert (S3 : pb_pairs (rXY V) == Qnat N_ * (Qnat d * p)) by (apply pb_pairs_uniform; [exact Hreg|intros i k Hi Hk He; apply (U2 i k Hi Hk He)]).
+  assert (S4 : pb_pairs (rXX V) == Qnat N_ * (Qnat d * q)) by (apply pb_pairs_uniform; [exact Hreg|intros i k Hi Hk He; apply (U2 i k Hi Hk He)]).
+  assert (T1 : sumn N_ (rX D) == Qnat N_ * (- (tau * Qnat d * p))) by (apply sumn_const; intros k Hk; apply (D1 k Hk)).
+  assert (T2 : sumn N_ (rY D) == Qnat N_ * (tau * Qnat d * p - g * y)) by (apply sumn_const; intros k Hk; apply (D1 k Hk)).
+  assert (T3 : pb_pairs (rXY D) == Qnat N_ * (Qnat d * (- (tau + g) * p + (Qnat d - 1) * tau * (q - p) * p * inv0 x)))
+    by (apply pb_pairs_uniform; [exact Hreg|intros i k Hi Hk He; apply (D2 i k Hi Hk He)]).
+  assert (T4 : pb_pairs (rXX D) == Qnat N_ * (Qnat d * (- (2 * (Qnat d - 1) * tau * p * q * inv0 x))))
+    by (apply pb_pairs_uniform; [exact Hreg|intros i k Hi Hk He; apply (D2 i k Hi Hk He)]).
+  unfold Phi, dSIR_homogeneous_pairwise. cbn [vnth nth].
+  repeat constructor; rewrite ?T1, ?T2, ?T3, ?T4, ?S1, ?S2, ?S3, ?S4, ?(inv0_nz x Hx); field; repeat split; assumption.
+Qed.
+
+(* SIS: Phi (V) = (S = sum (1 - Y_i), [SI], [SS]) with N and n = d parameters of the homogeneous pairwise model;
+   dPhi (D) = (- sum D_Y, [dXY], [dXX]) *)
+Lemma pbSIS_lump d tau g y p q V t :
+  pb_regularb d = true -> (forall u v, tr u v == tau) -> (forall u, rc u == g) -> pbSIS_uniform V y p q ->
+  ~ 1 - y == 0 -> ~ Qnat N_ == 0 -> ~ Qnat d == 0 ->
+  let D := dSIS_pair_based G nodelist idx tr rc V t in
+  pbSIS_uniform D (tau * Qnat d * p - g * y)
+                  (- (tau + g) * p + g * (1 - 2 * p - q) + (Qnat d - 1) * tau * (q - p) * p * inv0 (1 - y))
+                  (2 * g * p - 2 * (Qnat d - 1) * tau * p * q * inv0 (1 - y)) /\
+  veq [- sumn N_ (sY D); pb_pairs (sXY D); pb_pairs (sXX D)]
+      (dSIS_homogeneous_pairwise [sumn N_ (sX V); pb_pairs (sXY V); pb_pairs (sXX V)] t (Qnat N_) (Qnat d) tau g).
+Proof.
+  intros Hreg Ht Hr HU Hx HN Hd D.
+  assert (F := pbSIS_uniform_field d tau g y p q V Hreg Ht Hr HU).
+  assert (HD : pbSIS_uniform D (tau * Qnat d * p - g * y)
+                  (- (tau + g) * p + g * (1 - 2 * p - q) + (Qnat d - 1) * tau * (q - p) * p * inv0 (1 - y))
+                  (2 * g * p - 2 * (Qnat d - 1) * tau * p * q * inv0 (1 - y))).
+  { split.
+    - intros k Hk. destruct (pbSIS_layout V t k k Hk Hk) as [E1 _]. fold D in E1. rewrite E1. apply (F k Hk).
+    - intros i j Hi Hj He. destruct (pbSIS_layout V t i j Hi Hj) as [_ [E3 E4]]. fold D in E3, E4. rewrite E3, E4.
+      destruct (F i Hi) as [_ F3]. apply F3; assumption. }
+  split; [exact HD|].
+  destruct HU as [U1 U2]. destruct HD as [D1 D2].
+  assert (S1 : sumn N_ (sX V) == Qnat N_ * (1 - y)) by (apply sumn_const; intros k Hk; unfold psX; rewrite (U1 k Hk); reflexivity).
+  assert (S3 : pb_pairs (sXY V) == Qnat N_ * (Qnat d * p)) by (apply pb_pairs_uniform; [exact Hreg|intros i k Hi Hk He; apply (U2 i k Hi Hk He)]).
+  assert (S4 : pb_pairs (sXX V) == Qnat N_ * (Qnat d * q)) by (apply pb_pairs_uniform; [exact Hreg|intros i k Hi Hk He; apply (U2 i k Hi Hk He)]).
+  assert (T1 : sumn N_ (sY D) == Qnat N_ * (tau * Qnat d * p - g * y)) by (apply sumn_const; intros k Hk; apply (D1 k Hk)).
+  assert (T3 : pb_pairs (sXY D) == Qnat N_ * (Qnat d * (- (tau + g) * p + g * (1 - 2 * p - q) + (Qnat d - 1) * tau * (q - p) * p * inv0 (1 - y))))
+    by (apply pb_pairs_uniform; [exact Hreg|intros i k Hi Hk He; apply (D2 i k Hi Hk He)]).
+  assert (T4 : pb_pairs (sXX D) == Qnat N_ * (Qnat d * (2 * g * p - 2 * (Qnat d - 1) * tau * p * q * inv0 (1 - y))))
+    by (apply pb_pairs_uniform; [exact Hreg|intros i k Hi Hk He; apply (D2 i k Hi Hk He)]).
+  unfold dSIS_homogeneous_pairwise. cbn [vnth nth].
+  repeat constructor; rewrite ?T1, ?T3, ?T4, ?S1, ?S3, ?S4, ?(inv0_nz (1 - y) Hx); field; repeat split; assumption.
+Qed.
 End PairBased.
